@@ -280,6 +280,16 @@ def _flatten_components(v, f=None, at=None, depth=0):
 DECOR_OPTION_KEYS = ('gf', 'gf_terminals', 'mark_heads_marking', 'boyd_split_marking', 'boyd_split_numbering')
 
 
+def sepnames_all(f):
+    """locals that hold the gf separator: some definition reads the gf_separator option or the default constant"""
+    out = set()
+    for nm in f.locals:
+        for (_, v) in name_defs(f, nm):
+            if isinstance(v, ast.AST) and ('gf_separator' in unparse(v) or 'DEFAULT_GF_SEPARATOR' in unparse(v)):
+                out.add(nm)
+    return out
+
+
 def _fields_of_case(c, f, common):
     import re
     out = set(_data_fields_read(c.value, f)) if c.value is not None else set()
@@ -475,6 +485,19 @@ def r_decor(prog, tier):
                         and not any(isinstance(x, ast.Call) and prog.callee(x, f) not in (None, ('trees', 'has_children'))
                                     for x in walk_own(f.node)):
                     ok2 = False
+                # placeholder functions start with the literal "-" (DEFAULT_EDGE is "--"), whatever separator is chosen
+                for x_ in walk_own(f.node):
+                    if isinstance(x_, ast.Call) and isinstance(x_.func, ast.Attribute) and x_.func.attr == 'startswith' \
+                            and "data['edge']" in unparse(x_.func.value) and x_.args:
+                        a_ = x_.args[0]
+                        okp = True if const_str(a_) == '-' else None
+                        whyp = 'compared with the literal "-"'
+                        if isinstance(a_, ast.Name) and a_.id in sepnames_all(f):
+                            okp = False
+                            whyp = 'the placeholder test uses the separator variable `%s`: with gf_separator:# the default ' \
+                                   'function "--" is appended to every label' % a_.id
+                        obs.append(Ob('DECOR/GUARD', f.fq, 'the placeholder function (starting with "-") is never written', okp, whyp,
+                                      construct='decor-placeholder', line=x_.lineno))
                 obs.append(Ob('DECOR/GUARD', f.fq, 'tokens get the function label only with gf_terminals', ok2,
                               'guard `has_children(tree) or \'gf_terminals\' in params`' if ok2 else
                               ('gf_terminals is never consulted' if ok2 is False else 'guard not recognised'),
